@@ -10,6 +10,14 @@ def _tag(line, out):
     w = line.split(" ")
     if w[0] == "fx":
         return "fx:" + w[1] + ":" + out.split(":")[0]
+    if w[0] == "ax":
+        regs = sum(1 for x in w[2:] if x.startswith("r:"))
+        acts = {x[2] for x in w[2:] if x.startswith("r:")}
+        return "atexit:%s:%s%s%s" % ("0regs" if regs == 0 else "1-3regs" if regs <= 3 else "4-15regs" if regs < 16 else "16+regs",
+                                     "unreg" if any(x.startswith("u") for x in w[2:]) else "nounreg",
+                                     ":panics" if acts & set("sentz") else "", ":reentrant" if acts & set("xgu") else "")
+    if " F 664c=" in line:
+        return "longline:" + ("ok" if out.startswith("ok") else out.split(":")[0])
     t = "child" if w[0] == "pc" else "inproc"
     if out.startswith("ok"):
         r = "ok"
